@@ -1,6 +1,7 @@
 package main
 
 import (
+	"context"
 	"crypto/sha256"
 	"encoding/hex"
 	"encoding/json"
@@ -67,7 +68,18 @@ func runWorker(sp *spec, bin string, j workerJob) (*result, error) {
 	if j.Race {
 		sh = fmt.Sprintf("exec %s %s", cmdline, strings.Join(args, " ")) // the race runtime reserves huge virtual ranges
 	}
-	cmd := exec.Command("/bin/sh", "-c", sh)
+	// hard wall-clock limit: a worker that hangs is an engine error, not a hang of the check
+	limit := 15 * time.Minute
+	if !j.Deadline.IsZero() {
+		limit = time.Until(j.Deadline) + 90*time.Second
+		if limit < 2*time.Minute {
+			limit = 2 * time.Minute
+		}
+	}
+	cctx, ccancel := context.WithTimeout(context.Background(), limit)
+	defer ccancel()
+	cmd := exec.CommandContext(cctx, "/bin/sh", "-c", sh)
+	cmd.WaitDelay = 5 * time.Second
 	cmd.Dir = j.Scratch
 	scen := make([]string, len(j.Scen))
 	for i, s := range j.Scen {
@@ -86,6 +98,9 @@ func runWorker(sp *spec, bin string, j workerJob) (*result, error) {
 	}
 	cmd.Env = env
 	outb, err := cmd.CombinedOutput()
+	if cctx.Err() != nil {
+		return nil, fmt.Errorf("worker exceeded its hard wall-clock limit of %v and was killed (scenarios %v)\n%s", limit, j.Scen, tail(outb, 3000))
+	}
 	if j.Mode == "list" {
 		if err != nil {
 			return nil, fmt.Errorf("%v\n%s", err, tail(outb, 4000))
@@ -93,6 +108,10 @@ func runWorker(sp *spec, bin string, j workerJob) (*result, error) {
 		return nil, nil
 	}
 	b, rerr := os.ReadFile(j.Out)
+	if rerr != nil && j.Race && strings.Contains(string(outb), "WARNING: DATA RACE") {
+		return &result{Violations: []violation{{Signature: "data-race " + raceSignature(string(outb)), Message: tail(outb, 6000), Scenario: "race-pass"}},
+			Counters: map[string]int64{}, MaxBound: map[string]int{}}, nil
+	}
 	if rerr != nil {
 		return nil, fmt.Errorf("worker produced no result (%v): %v\n%s", rerr, err, tail(outb, 6000))
 	}
@@ -117,15 +136,22 @@ func runWorker(sp *spec, bin string, j workerJob) (*result, error) {
 	return &r, nil
 }
 
-var raceFuncRe = regexp.MustCompile(`(?m)^\s+(github\.com/bluenviron/gohlslib/v2[^\s(]*)\(`)
+var raceFuncRe = regexp.MustCompile(`(?m)^\s+github\.com/bluenviron/gohlslib/v2(\S*?)\(\)\s*\n\s+(\S+):\d+`)
 
+// raceSignature names the first two library functions of a race report (harness and runtime frames skipped).
 func raceSignature(out string) string {
+	if i := strings.Index(out, "WARNING: DATA RACE"); i >= 0 {
+		out = out[i:]
+	}
+	if i := strings.Index(out, "Goroutine "); i >= 0 {
+		out = out[:i] // only the two access stacks
+	}
 	m := raceFuncRe.FindAllStringSubmatch(out, -1)
 	seen := map[string]bool{}
 	var fs []string
 	for _, x := range m {
-		f := strings.TrimPrefix(x[1], "github.com/bluenviron/gohlslib/v2")
-		if strings.Contains(f, "zzverif") || strings.Contains(f, "verifH") || seen[f] {
+		f, file := strings.TrimPrefix(x[1], "."), x[2]
+		if strings.Contains(file, "zz_verif") || strings.Contains(file, "zzverif") || seen[f] {
 			continue
 		}
 		seen[f] = true
@@ -134,6 +160,7 @@ func raceSignature(out string) string {
 			break
 		}
 	}
+	sort.Strings(fs)
 	return strings.Join(fs, " vs ")
 }
 
@@ -362,8 +389,11 @@ func runCheck(sp *spec, tier, params string, jobs int, budget time.Duration, see
 	}
 	if len(engineErrs) > 0 {
 		sort.Strings(engineErrs)
-		fmt.Fprintf(os.Stderr, "vcheck: ENGINE ERROR in %s (%d):\n%s\n", sp.ID, len(engineErrs), engineErrs[0])
-		return 2
+		fmt.Fprintf(os.Stderr, "vcheck: ENGINE ERROR in %s (%d):\n%s\n", sp.ID, len(engineErrs), firstN(engineErrs[0], 6000))
+		if len(merged.Violations) == 0 {
+			return 2
+		}
+		merged.Caps = appendUniq(merged.Caps, fmt.Sprintf("%d worker(s) ended with an engine error", len(engineErrs)))
 	}
 
 	// classify violations
